@@ -571,7 +571,9 @@ def n_chiplets(kind):
             r = UNIT
         else:
             raise Unsupported(kind)
-        interp.events.append(("chiplets", m.group(0), vals, r))
+        # the log keeps its own copies: callers may permute the returned / passed lists in place
+        snap = lambda x: [snap(y) for y in x] if isinstance(x, list) else x  # noqa: E731
+        interp.events.append(("chiplets", m.group(0), [snap(v) for v in vals], snap(r)))
         return r
     return h
 
@@ -690,7 +692,8 @@ NATIVES = [
     (R(r"core::num::<impl u(?:8|16|32|64|size)>::pow"), n_pow),
     (R(r"Chiplets::read_mem"), n_chiplets("word")),
     (R(r"Chiplets::read_mem_double"), n_chiplets("dword")),
-    (R(r"Chiplets::write_mem|Chiplets::write_mem_element|Chiplets::write_mem_double"), n_chiplets("unit")),
+    (R(r"Chiplets::write_mem|Chiplets::write_mem_double"), n_chiplets("unit")),
+    (R(r"Chiplets::write_mem_element"), n_chiplets("word")),
     (R(r"Chiplets::u32and"), n_chiplets_bitwise("and")),
     (R(r"Chiplets::u32xor"), n_chiplets_bitwise("xor")),
     (R(r"Arguments::<'_>::\w+(?:::<.*>)?|core::fmt::rt::.*|Argument::<'_>::\w+(?:::<.*>)?"), n_opaque),
